@@ -78,6 +78,17 @@ int main(int argc, char* argv[])
 
 	for(int arg = 1; arg < argc; arg++)
 	{
+		int operands = 0;
+		if(!strcmp(argv[arg], "-o") || !strcmp(argv[arg], "--output"))
+			operands = 2;
+		else if(!strcmp(argv[arg], "-h") || !strcmp(argv[arg], "--c-header")
+			|| !strcmp(argv[arg], "-i") || !strcmp(argv[arg], "--asm-header"))
+			operands = 1;
+		if((arg + operands) >= argc)
+		{
+			std::cerr << "option " << argv[arg] << " requires " << operands << " argument(s)\n";
+			return -1;
+		}
 		if((!strcmp(argv[arg], "-o") || !strcmp(argv[arg], "--output")) && (arg+1) < argc)
 		{
 			seq_filename = argv[++arg];
